@@ -11,7 +11,7 @@ typedef Eigen::Matrix3d M;
 static std::string v3(const V &v) { return dexact(v.x()) + " " + dexact(v.y()) + " " + dexact(v.z()); }
 
 // type: A auto, O ortho, T triclinic, P open (explicit)
-static void mic_case(const char *kind, char type, const M &box, const V &ri, const V &rj, int na, int nb, int nc) {
+static void mic_case(const char *kind, char type, const M &box, const V &ri, const V &rj, int na, int nb, int nc, int route = -1) {
   // ONE topology for the whole stream: every case gives it a new box, as every frame of a trajectory does; whatever the object
   // remembers from the boxes and distance calls before (cached reciprocals, a kept boundary object) must not leak into this case
   static Topology top;
@@ -19,11 +19,30 @@ static void mic_case(const char *kind, char type, const M &box, const V &ri, con
                                    : type == 'T' ? BoundaryCondition::typeTriclinic : BoundaryCondition::typeOpen;
   top.setBox(box, bt);
   V rjs = rj + box.col(0) * (double)na + box.col(1) * (double)nb + box.col(2) * (double)nc;
-  V d = top.BCShortestConnection(ri, rj), dsw = top.BCShortestConnection(rj, ri), dsh = top.BCShortestConnection(ri, rjs);
+  // every other case asks through the bead-index route Topology::getDist(i, j) (the one the bonded interactions use): three beads
+  // of the same topology carry the three points
+  static long ncase = 0;
+  static bool beads_made = false;
+  if (!beads_made) {
+    top.CreateResidue("R");
+    top.RegisterBeadType("X");
+    for (int k = 0; k < 3; k++) top.CreateBead(Bead::spherical, "b" + std::to_string(k), "X", 0, 1.0, 0.0);
+    beads_made = true;
+  }
+  bool by_bead = route < 0 ? (ncase++ % 2) == 1 : route == 1;
+  V d, dsw, dsh;
+  std::string kindS = kind;
+  if (by_bead) {
+    top.getBead(0)->setPos(ri); top.getBead(1)->setPos(rj); top.getBead(2)->setPos(rjs);
+    d = top.getDist(0, 1); dsw = top.getDist(1, 0); dsh = top.getDist(0, 2);
+    kindS += "b";
+  } else {
+    d = top.BCShortestConnection(ri, rj); dsw = top.BCShortestConnection(rj, ri); dsh = top.BCShortestConnection(ri, rjs);
+  }
   int t = (int)top.getBoxType();
   double vol = top.BoxVolume();
   double h = t == (int)BoundaryCondition::typeOpen ? 0.0 : top.ShortestBoxSize();
-  printf("C02 %s %c %s %s %s %s %s %s %d %d %d %c %s %s %s %s %s\n", kind, type, v3(box.col(0)).c_str(), v3(box.col(1)).c_str(),
+  printf("C02 %s %c %s %s %s %s %s %s %d %d %d %c %s %s %s %s %s\n", kindS.c_str(), type, v3(box.col(0)).c_str(), v3(box.col(1)).c_str(),
          v3(box.col(2)).c_str(), v3(ri).c_str(), v3(rj).c_str(), v3(rjs).c_str(), na, nb, nc,
          t == (int)BoundaryCondition::typeOpen ? 'P' : t == (int)BoundaryCondition::typeOrthorhombic ? 'O' : 'T', v3(d).c_str(),
          v3(dsw).c_str(), v3(dsh).c_str(), dexact(vol).c_str(), dexact(h).c_str());
@@ -63,7 +82,9 @@ int main(int argc, char **argv) {
       for (int i = 0; i < 3; i++) rj(i) = rd();
       k += 6;
       int na = atoi(t[k].c_str()), nb = atoi(t[k + 1].c_str()), nc = atoi(t[k + 2].c_str());
-      mic_case(t[1].c_str(), t[2][0], b, ri, rj, na, nb, nc);
+      bool bead_route = !t[1].empty() && t[1].back() == 'b';
+      std::string base = bead_route ? t[1].substr(0, t[1].size() - 1) : t[1];
+      mic_case(base.c_str(), t[2][0], b, ri, rj, na, nb, nc, bead_route ? 1 : 0);
     }
     return 0;
   }
